@@ -91,6 +91,8 @@ func (w *World) load(in *loadInputs, sp loadSpec, rcv *Writer) (*ipfslog.IPFSLog
 	if sp.cancelRate > 0 || sp.timeoutless {
 		d.Cancel = cancel
 	}
+	w.withProgress(d)
+	defer func() { w.curProgress = nil }()
 	d.Run(func() { l, err = w.invokeLoader(ctx, in, sp, rcv, w.loadOpts()) })
 	w.R.Add("fetch-steps", int64(d.Steps))
 	if d.MainSemBlocked > 0 {
@@ -124,22 +126,22 @@ func (w *World) abortedLoad() {
 func (w *World) invokeLoader(ctx context.Context, in *loadInputs, sp loadSpec, rcv *Writer, o *ipfslog.LogOptions) (l *ipfslog.IPFSLog, err error) {
 	switch sp.loader {
 	case ldManifest:
-		l, err = ipfslog.NewFromMultihash(ctx, w.St, rcv.ID, in.manifest, o, &ipfslog.FetchOptions{Concurrency: sp.conc, Length: sp.length, Timeout: sp.timeout})
+		l, err = ipfslog.NewFromMultihash(ctx, w.St, rcv.ID, in.manifest, o, &ipfslog.FetchOptions{Concurrency: sp.conc, Length: sp.length, Timeout: sp.timeout, ProgressChan: w.curProgress})
 	case ldJSON:
-		l, err = ipfslog.NewFromJSON(ctx, w.St, rcv.ID, in.json, o, &entry.FetchOptions{Concurrency: sp.conc, Length: sp.length, Timeout: sp.timeout})
+		l, err = ipfslog.NewFromJSON(ctx, w.St, rcv.ID, in.json, o, &entry.FetchOptions{Concurrency: sp.conc, Length: sp.length, Timeout: sp.timeout, ProgressChan: w.curProgress})
 	case ldEntries:
 		// the caller's slice may have spare capacity (built with make/append): the library must neither
 		// write into that capacity in a way that disturbs the result nor reorder what the caller passed
 		src := make([]iface.IPFSLogEntry, len(in.heads), len(in.heads)+sp.spare)
 		copy(src, in.heads)
-		l, err = ipfslog.NewFromEntry(ctx, w.St, rcv.ID, src, o, &entry.FetchOptions{Concurrency: sp.conc, Length: sp.length, Timeout: sp.timeout})
+		l, err = ipfslog.NewFromEntry(ctx, w.St, rcv.ID, src, o, &entry.FetchOptions{Concurrency: sp.conc, Length: sp.length, Timeout: sp.timeout, ProgressChan: w.curProgress})
 		for i := range in.heads {
 			if src[i] != in.heads[i] {
 				w.R.Violate(w.P.Prop+":caller-slice-modified", "NewFromEntry changed element %d of the slice of entries its caller supplied", i)
 			}
 		}
 	case ldHash:
-		l, err = ipfslog.NewFromEntryHash(ctx, w.St, rcv.ID, in.hash, o, &ipfslog.FetchOptions{Concurrency: sp.conc, Length: sp.length, Timeout: sp.timeout})
+		l, err = ipfslog.NewFromEntryHash(ctx, w.St, rcv.ID, in.hash, o, &ipfslog.FetchOptions{Concurrency: sp.conc, Length: sp.length, Timeout: sp.timeout, ProgressChan: w.curProgress})
 	}
 	return
 }
